@@ -117,7 +117,10 @@ def run_check(prop, tier, seed, timeout, verbose):
     extra_fn = getattr(mod, "extra_obligations", None)
     extra_results = []
     if extra_fn:
-        extra_results = extra_fn(index, tier)        # [(name, ok:bool|None, detail, function_key)]
+        extra_results = [tuple(x) + (("table",) if len(x) == 4 else ()) for x in extra_fn(index, tier)]
+        # [(name, ok, detail, function_key, kind)]: kind "table" = a value read from the ast differs from the
+        # specification table (failed obligation); kind "pattern" = the statement implementing a fact was not
+        # recognised (may be a refactoring): undecided unless the native run exhibits a failing input
     cover_res = discharge(all_obs, [(n, h) for n, h, _ in all_covers], timeout=timeout,
                           crosscheck=(tier == "thorough"))
     close_pool()
@@ -142,7 +145,7 @@ def run_check(prop, tier, seed, timeout, verbose):
         if key in per_unit_counts and per_unit_counts[key] < n and not any(r.key == key and r.error for r in unit_results):
             errors.append(f"obligation count for {key} dropped from {n} to {per_unit_counts[key]} (generator skipped something?)")
     failed = [ob for ob in all_obs if ob.status != "unsat"]
-    failed += [_FakeOb(n, d, k) for n, ok, d, k in extra_results if ok is False]
+    failed += [_FakeOb(n, d, k, kind) for n, ok, d, k, kind in extra_results if ok is False]
     if tier == "thorough":
         for ob in all_obs:
             cr = getattr(ob, "cross", None)
@@ -219,7 +222,7 @@ def run_check(prop, tier, seed, timeout, verbose):
     for l in sorted(set(known_lines)):
         print(l)
     n_ob = len(all_obs) + len(extra_results)
-    n_ok = sum(1 for ob in all_obs if ob.status == "unsat") + sum(1 for _, ok, _, _ in extra_results if ok)
+    n_ok = sum(1 for ob in all_obs if ob.status == "unsat") + sum(1 for x in extra_results if x[1])
     print(f"{prop} [{tier}]: {n_ok}/{n_ob} obligations discharged over {len(units)} functions + {len(lemmas)} lemmas; "
           f"native evaluations={sum(t.get('evaluations', 0) for t in native.get('targets', {}).values())}; {wall:.1f}s")
     if verbose or failed:
@@ -241,9 +244,9 @@ def run_check(prop, tier, seed, timeout, verbose):
 
 
 class _FakeOb:
-    def __init__(self, name, detail, unit):
+    def __init__(self, name, detail, unit, kind="table"):
         self.name, self.detail, self.unit = name, detail, unit
-        self.status = "sat"
+        self.status = "sat" if kind == "table" else "unknown"
         self.solver = "syntactic"
         self.time = 0.0
         self.smt2 = None
@@ -302,9 +305,9 @@ def write_evidence(prop, tier, seed, mod, index, unit_results, all_obs, extra_re
             by_backend[ob.solver] = by_backend.get(ob.solver, 0) + 1
         solver_s += ob.time or 0.0
     n_ob = len(all_obs) + len(extra_results)
-    n_ok = sum(1 for ob in all_obs if ob.status == "unsat") + sum(1 for _, ok, _, _ in extra_results if ok)
+    n_ok = sum(1 for ob in all_obs if ob.status == "unsat") + sum(1 for x in extra_results if x[1])
     if extra_results:
-        by_backend["syntactic-table-check"] = sum(1 for _, ok, _, _ in extra_results if ok)
+        by_backend["syntactic-table-check"] = sum(1 for x in extra_results if x[1])
     stubs_used = sorted(set().union(*[r.stubs for r in unit_results]) if unit_results else [])
     trusted = ["A1 Python-subset semantics of the VC generator (pyvc), incl. value semantics of nested containers",
                "A11 SMT solver soundness (z3 5.1; cvc5/z3-4.8 only as fallback)",
